@@ -169,7 +169,10 @@ def run_impl(c):
         before = w._data.tobytes()
         args = []
         kw = {}
-        if c["req"] is not None:
+        if c["req"] == "ci32":
+            from nitypes.complex import ComplexInt32DType
+            args.append(ComplexInt32DType)
+        elif c["req"] is not None:
             rq = c["req"]
             args.append(np.dtype(rq) if c.get("req_form") == "dtype" else (getattr(np, rq) if hasattr(np, rq) and c.get("req_form") == "type" else rq))
         if c["start"] != "omit":
@@ -320,9 +323,16 @@ def _window(rng, n):
         s = rng.randrange(0, n + 1)
         k = rng.randrange(0, n - s + 1)
         return rng.choice([s, s, ["np", "int32", s]]), rng.choice([k, k, None, "omit", ["np", "uint8", k]])
-    if m < 0.85:
+    if m < 0.80:
         s = rng.randrange(0, n + 2)
         return s, n - s + rng.choice([1, 2])
+    if m < 0.85:
+        # NumPy scalars of a narrow type: start + count wraps around in that type but not as integers
+        ty, lim = rng.choice([("uint8", 256), ("int8", 128), ("uint16", 65536)])
+        s = rng.randrange(0, min(n, lim - 1) + 1)
+        k = lim - s - rng.choice([0, 1]) if ty != "int8" else lim - 1 - rng.randrange(0, 2)
+        k = max(0, min(k, lim - 1))
+        return ["np", ty, s], ["np", ty, k]
     if m < 0.9:
         return rng.choice([-1, n + 1]), rng.choice(["omit", 0, 1])
     if m < 0.95:
@@ -346,7 +356,7 @@ def gen_cases(rng, tier):
         good = ["float32", "float64"] if kind == "A" else ["complex64", "complex128"]
         wrong = ["complex64", "complex128"] if kind == "A" else ["float32", "float64"]
         m = rng.random()
-        req = None if m < 0.25 else rng.choice(good) if m < 0.85 else rng.choice(wrong + ["float16", "int32", "<U4", "int64"])
+        req = None if m < 0.25 else rng.choice(good) if m < 0.85 else rng.choice(wrong + ["float16", "int32", "<U4", "int64", "ci32", "ci32"])
         scale = None if rng.random() < 0.3 else {"g": _scale_num(rng), "o": _scale_num(rng)}
         s, k = _window(rng, n)
         cases.append({"kind": kind, "raw": raw, "vals": vals, "req": req, "req_form": rng.choice(["dtype", "type", "str"]),
